@@ -21,6 +21,9 @@ def run(chk):
     r1(chk, prog)
     own.rule_leaks(chk, prog, "C08.R2")
     r3(chk, prog)
+    # R4 failure atomicity of the string set operation (shared with C11): a failed set must not have freed or written anything
+    from . import c11
+    c11.r_set(chk, prog, prog.module("json_object.c"))
     chk.undecided_clauses += [
         "that the k-th dynamic allocation of a given workload is handled (fault enumeration is a dynamic technique)",
         "absence of crashes inside libc",
